@@ -23,6 +23,7 @@ type c15Hist struct {
 	Steps      []string `json:"steps"`
 	NoTimeout  bool     `json:"no_timeout"` // serve with timeout 0: must never arm, never stop by itself
 	Socketpair bool     `json:"socketpair"`
+	Reuse      bool     `json:"reuse"` // afterwards serve the same object once more, untimed after timed and vice versa
 }
 
 func runC15Hist(r *fw.Run, h *c15Hist) []string {
@@ -197,6 +198,56 @@ func runC15Hist(r *fw.Run, h *c15Hist) []string {
 	for _, c := range lr.conns {
 		c.client.Close()
 	}
+	if stopped && len(lr.viol) == 0 && h.Reuse {
+		// the same object served again the other way round: untimed after timed must never arm a deadline,
+		// timed after untimed must arm one before every Accept
+		L2 := newCtlListener(r)
+		svc.VerifSetListener(L2)
+		ctx2, cancel2 := context.WithCancel(context.Background())
+		defer cancel2()
+		to2 := time.Duration(0)
+		if h.NoTimeout {
+			to2 = 50 * time.Millisecond
+		}
+		done2 := make(chan error, 1)
+		go func() { done2 <- svc.DoListen(ctx2, to2) }()
+		if L2.WaitParked(lifeBound) {
+			// one connection comes and goes, so that the loop iterates
+			lr2 := &lifeRun{r: r, h: &c14Hist{Socketpair: h.Socketpair}, svc: svc, L: L2}
+			if c := lr2.connect(true); c != nil {
+				if err := roundTrip(c.client, lifeBound); err != nil {
+					lr.fail("accepted-connection-not-served", "second serving period of the same object: %v", err)
+				}
+				c.client.Close()
+				lr2.waitClosed(c, "client closed it")
+			}
+			L2.WaitParked(lifeBound)
+			L2.mu.Lock()
+			ever, armed, unarmed := L2.everArmed, L2.armed, L2.unarmedEnters
+			L2.mu.Unlock()
+			if to2 == 0 && ever {
+				lr.fail("armed-without-timeout", "the same service object was first served with an idle timeout and then without one: the second serving call armed a listener deadline (it would stop by itself)")
+			}
+			if to2 != 0 && (!armed || unarmed > 0) {
+				lr.fail("accept-unarmed", "the same service object was first served without a timeout and then with one: the second serving call entered Accept without an armed deadline")
+			}
+			select {
+			case e := <-done2:
+				done2 <- e
+				lr.fail("stopped-without-timeout", "second serving period of the same object returned %v by itself", e)
+			case <-time.After(2 * time.Millisecond):
+			}
+			lr.viol = append(lr.viol, lr2.viol...)
+			r.Count("reuse_checks", 1)
+		}
+		svc.Shutdown()
+		select {
+		case <-done2:
+		case <-time.After(20 * time.Second):
+			lr.fail("serve-never-returns", "second serving period: no return within 20 s after Shutdown")
+			L2.Close()
+		}
+	}
 	return lr.viol
 }
 
@@ -247,9 +298,9 @@ func runC15(r *fw.Run) {
 	hs := c15Enumerate(r.Pick(5, 7))
 	var hists []*c15Hist
 	for i, s := range hs {
-		hists = append(hists, &c15Hist{Steps: s, Socketpair: i%3 == 0})
+		hists = append(hists, &c15Hist{Steps: s, Socketpair: i%3 == 0, Reuse: i%4 == 0})
 		if i%5 == 0 {
-			hists = append(hists, &c15Hist{Steps: s, NoTimeout: true, Socketpair: i%2 == 0})
+			hists = append(hists, &c15Hist{Steps: s, NoTimeout: true, Socketpair: i%2 == 0, Reuse: i%10 == 0})
 		}
 	}
 	r.Count("exhaustive_history_len", int64(r.Pick(5, 7)))
@@ -283,6 +334,7 @@ func runC15(r *fw.Run) {
 			listen bool
 		}{{"unix", true}, {"tcp", false}, {"unix", false}, {"tcp", true}} {
 			c15Real(r, cf.tr, cf.listen)
+			c15RealLate(r, cf.tr, cf.listen)
 		}
 	}
 }
@@ -453,10 +505,84 @@ func c15Real(r *fw.Run, transport string, useListen bool) {
 	r.Case(fw.Hash("real", transport, fmt.Sprint(useListen)), true)
 }
 
+// c15RealLate: the idle period counts from the last new connection, not from the start of serving. One-sided and
+// exact: a correct service re-arms the deadline after it has accepted the connection, so it cannot stop earlier than
+// T after the instant t0 at which the client began to dial.
+func c15RealLate(r *fw.Run, transport string, useListen bool) {
+	const T = 400 * time.Millisecond
+	cse := &c15RealCase{true, transport, useListen}
+	svc, err := varlink.NewService("Verif", "IdleLate", "1", "u")
+	if err != nil {
+		return
+	}
+	var network, dial, addr string
+	if transport == "tcp" {
+		l, err := net.Listen("tcp", "127.0.0.1:0")
+		if err != nil {
+			return
+		}
+		dial = l.Addr().String()
+		l.Close()
+		network, addr = "tcp", "tcp:"+dial
+	} else {
+		dial = filepath.Join(r.WorkDir, fmt.Sprintf("late-%d", r.Seq()))
+		network, addr = "unix", "unix:"+dial
+	}
+	ctx, cancel := context.WithCancel(context.Background())
+	defer cancel()
+	done := make(chan error, 1)
+	if useListen {
+		go func() { done <- svc.Listen(ctx, addr, T) }()
+	} else {
+		if err := svc.Bind(ctx, addr); err != nil {
+			r.Inconclusive("bind %s: %v", addr, err)
+			return
+		}
+		go func() { done <- svc.DoListen(ctx, T) }()
+	}
+	time.Sleep(T * 6 / 10)
+	t0 := time.Now()
+	c, err := net.DialTimeout(network, dial, time.Second)
+	if err != nil {
+		select {
+		case <-done:
+			r.Inconclusive("late connection: the service had already timed out (slow machine)")
+		default:
+			svc.Shutdown()
+			r.Inconclusive("late connection: dial failed: %v", err)
+		}
+		return
+	}
+	if err := roundTrip(c, 5*time.Second); err != nil {
+		c.Close()
+		svc.Shutdown()
+		r.Inconclusive("late connection: %v", err)
+		return
+	}
+	c.Close()
+	select {
+	case e := <-done:
+		stopped := time.Now()
+		if _, ok := e.(varlink.ServiceTimeoutError); !ok {
+			r.Violation("C15 wrong-timeout-error", fmt.Sprintf("real clock (%s, listen=%v): returned %T %v", transport, useListen, e, e), cse)
+			return
+		}
+		if d := stopped.Sub(t0); d < T {
+			r.Violation("C15 idle-period-not-restarted-by-connection", fmt.Sprintf("real clock (%s, listen=%v, T=%v): a client connected %v after serving started and closed again; the service stopped only %v after that client began to dial - the listener had seen a new connection within the period", transport, useListen, T, T*6/10, d.Round(time.Millisecond)), cse)
+		}
+		r.Count("real_clock_late_connection_checks", 1)
+	case <-time.After(60 * T):
+		r.Violation("C15 idle-expiry-ignored", fmt.Sprintf("real clock (%s, listen=%v): no stop within 60 T after the only connection had ended", transport, useListen), cse)
+		svc.Shutdown()
+	}
+	r.Case(fw.Hash("real-late", transport, fmt.Sprint(useListen)), true)
+}
+
 func replayC15(r *fw.Run, raw json.RawMessage) {
 	var rc c15RealCase
 	if json.Unmarshal(raw, &rc) == nil && rc.Real {
 		c15Real(r, rc.Transport, rc.Listen)
+		c15RealLate(r, rc.Transport, rc.Listen)
 		r.Case(1, true)
 		r.Case(2, true)
 		return
